@@ -293,7 +293,28 @@ def jsx_family():
     return out
 
 
+# ------------------------------------------------------------------ numbers that compare equal and print differently
+def numbers_family():
+    """0.0 == -0.0 == 0 == False and 1.0 == 1 == True with equal hashes, yet each has its own text: a memo keyed on the
+    value (an untyped lru_cache, a dict) makes the text of one depend on which was formatted first in the process.
+    One line per number and route (child, attribute value), so that the shuffled orders of the battery place each
+    after each."""
+    from ops_attrs import attr_render_line
+    from wire import earg
+    out = []
+    nums = [("f", "0.0"), ("f", "-0.0"), ("i", "0"), ("b", "False"), ("f", "1.0"), ("i", "1"), ("b", "True"),
+            ("f", "2.0"), ("i", "2"), ("f", "1e+16"), ("i", "10000000000000000")]
+    for kind, txt in nums:
+        out.append("c14_t2n " + earg(("list", [("num", kind, txt)])))
+        out.append("c14_t2n " + earg(("tuple", [("node", ("text", "n")), ("num", kind, txt), ("list", [("num", kind, txt)])])))
+        if kind != "b":
+            out.append(attr_render_line([[("title", ("num", txt))]], []))
+            out.append(attr_render_line([], [("width", ("num", txt)), ("data_n", ("num", txt))]))
+    return out
+
+
 FAMILIES = [
+    ("numbers", numbers_family),
     ("attrs", attrs_family), ("tag_attrs", tag_attrs_family), ("class_style", class_style_family), ("css", css_family),
     ("escape", escape_family), ("document", document_family), ("dep_tags", dep_tags_family), ("resolve", resolve_family),
     ("serialize", serialize_family), ("textdoc", textdoc_family), ("head_content", head_content_family), ("jsx", jsx_family),
